@@ -29,7 +29,8 @@ RULE = ('histories on the real Bus with up to 4 raw scripted clients: connect+He
         'reaches no client; a broadcast reaches exactly the set of connections holding a rule the C12 reference matcher '
         'accepts. Non-trivial = >=3 clients with a forged sender, or a destination whose owner changed earlier, or a '
         'broadcast with a near-miss rule; distinct = distinct history JSON. Messages come in the four header spellings of '
-        'refcodec.encode_variant (unknown fields, free field order, flag bit 0x4).')
+        'refcodec.encode_variant (unknown fields, free field order, flag bit 0x4); every third peer leaves INTERFACE out of its Hello '
+        'and every fifth call to the bus driver carries none.')
 ASSUMPTIONS = ['how many copies of a broadcast a connection with several matching rules receives is not asserted',
                'the answer to a message for an unowned destination is not asserted, only that no client receives it']
 
